@@ -8,6 +8,35 @@ NOT_YET = {}
 TB = ("Trusted: Lean kernel (axioms propext, Classical.choice, Quot.sound only; audited by #print axioms on every run); "
       "the hand-written model's correspondence to the code (differential, bounded by the generators whose distribution is in the evidence); ")
 CLAIMS = {
+ "C08": dict(
+  category="proof",
+  text=("Lean 4 theorem, for any number of fragments and with no hypothesis on them: every arrival order of the same multiset of "
+        "Valve split packets yields the same reassembly result (sorted-by-number reassembly is permutation invariant when numbers "
+        "are distinct — List.Perm.eq_of_pairwise on mergeSort — and a repeated number is rejected whatever the order); a duplicated "
+        "fragment is always an error; in-order/any-order arrival of the fragments of a payload reassembles exactly the payload. "
+        "Tie + oracle: every permutation (exhaustive to 5 fragments, sampled at 6) and every single duplication at every position of "
+        "SPEC-generated Source/GoldSrc split replies run on the real code and on the model."),
+  note=TB + "theorems are about the reassembly function (assemble∘sortChunks); that receive() feeds it the datagrams it got is covered by the correspondence. GameSpy 1/3 and Unreal 2 are added as their models land.",
+  technique="Lean 4 proof (permutation invariance of sort-based reassembly) + exhaustive permutation/duplication differential"),
+ "C10": dict(
+  category="proof",
+  text=("Lean 4 theorems about the model of retry_on_timeout for every retry count r and every unit: never more than r+1 attempts; "
+        "after L<=r timed-out attempts the first non-timeout attempt (valid or malformed) decides the result after exactly L+1 attempts "
+        "(a malformed reply is never retried); r+1 timeouts give the last timeout-class error; the combinator has no crash of its own for "
+        "any r (incl. usize::MAX, repaired in /repo). Each Valve request with its challenge rounds is definitionally one retried unit. "
+        "Tie + oracle: all outcome vectors over {silent, send fault, malformed, valid} up to length r+2, r in 0..3, at each Valve unit, "
+        "attempts counted on the wire."),
+  note=TB + "timeouts are scripted (silence); real socket timeouts belong to C12.",
+  technique="Lean 4 proof (induction on the retry count over attempt chains) + fault-vector differential"),
+ "C11": dict(
+  category="proof",
+  text=("Lean 4 theorems: maybe_gather! semantics for Skip (function not run, transport state untouched, section absent), Try (failure of any "
+        "kind -> section absent, computation continues) and Enforce (failure propagates unchanged); the app-id decision (check on: accepted "
+        "iff the id is the main or dedicated id; check off or no expectation: never a failure); and how Valve's query composes them after the "
+        "info section (BadGame without any further request). Tie + oracle: 9 toggle pairs x {valid, silent, malformed, challenge-then-silent}^2 "
+        "x {main, dedicated, other, no expectation} x check on/off on the real code, request kinds observed on the wire."),
+  note=TB + "Unreal 2's use of the toggles is added with its model.",
+  technique="Lean 4 proof (decision logic stated outright) + exhaustive toggle/outcome matrix differential"),
  "C02": dict(
   category="proof",
   text=("Lean 4 theorems: for every server state in the Valve specification's domain the model of each section parser "
